@@ -52,6 +52,7 @@ fn generate(prop: &str, seed: u64, thorough: bool) -> Option<Plan> {
         "C05udpin" => Some(scen_c05i::gen_c05i("C05", seed, thorough)),
         "C02v6" => Some(scen_udp::gen_c02_v6(seed, thorough)),
         "C02owner" => Some(scen_c05i::gen_c05i("C02", seed, thorough)),
+        "C12roam" => Some(scen_c05i::gen_c05i("C12", seed, thorough)),
         "C08reply" => Some(scen_c05i::gen_c05i("C08", seed, thorough)),
         "C06" => Some(scen_adv::gen_adv("C06", seed, thorough)),
         "C07" => Some(scen_adv::gen_adv("C07", seed, thorough)),
@@ -169,7 +170,11 @@ fn main() {
                 rt::start_watchdog(move |what, secs| {
                     let plan = CURRENT.lock().unwrap().clone();
                     let mut a = agg.lock().unwrap();
-                    if let Some(plan) = plan {
+                    if what == "slow-world" {
+                        // not a livelock: the world kept moving but did not finish within the hard limit; the rest of this
+                        // worker's seeds are given up and that is said in the evidence
+                        *a.probes.entry("worlds_abandoned_as_too_slow".to_owned()).or_insert(0) += 1;
+                    } else if let Some(plan) = plan {
                         a.violations.push(livelock_violation(&plan, what, secs));
                         a.evaluations += 1;
                     }
